@@ -437,3 +437,20 @@ Theorem nested_iadd :
     /\ (forall j, ~ In j (flat x) -> s' j = s j).
 Proof. exact @nested_iadd_correct. Qed.
 Print Assumptions nested_iadd.
+
+(* TRANSFER  the model of NumpyTensorSpace._lincomb executed at Q by the correspondence shards
+   is the rational restriction of the model the theorems above speak about (the instance R):
+   Q2R commutes with the interpreter of the regenerated syntax -- every test takes the same
+   branch, every division is by a scalar tested nonzero (checked on the regenerated fallback
+   bodies and direct body).  [sim sq sr] := forall j, sr j = map Q2R (sq j); [osim] relates the
+   outcomes (same constructor, related stores). *)
+From Coq Require Import QArith Qreals.
+From Verif Require Import C01.Transfer.
+Theorem lincomb_executed_model_is_rational_restriction :
+  forall (castq : Q -> Q) (castr : R -> R) (floating blas_dtype : bool) (flags : list (bool * bool))
+         (size : Z) (a b : Q) (x1 x2 out : nat) (sq : store Q) (sr : store R),
+  (forall q, Q2R (castq q) = castr (Q2R q)) -> sim sq sr ->
+  osim (lincomb_impl_sz castq floating blas_dtype flags size a x1 b x2 out sq)
+       (lincomb_impl_sz castr floating blas_dtype flags size (Q2R a) x1 (Q2R b) x2 out sr).
+Proof. exact lincomb_impl_transfer. Qed.
+Print Assumptions lincomb_executed_model_is_rational_restriction.
